@@ -56,6 +56,30 @@ func drvCase(c *ctx, r *rng.R, path string, bind int, arr []arrival, special str
 			rs.reset = special == "reset"
 			endpoint, closeFn, received = rs.addr(), rs.close, rs.received
 		}
+	case "any":
+		// protocol "any": UDP; a TCP endpoint on the same port number must hear nothing
+		for try := 0; ; try++ {
+			rs := newUDPResponder("127.0.0.1", steps)
+			ts, err := newTCPResponderAt("127.0.0.1", int(netip.MustParseAddrPort(rs.addr()).Port()), echo(func() time.Duration { return 3 * time.Millisecond }))
+			if err != nil && try < 8 {
+				rs.close()
+				continue
+			}
+			endpoint = rs.addr()
+			closeFn = func() {
+				rs.close()
+				if ts != nil {
+					ts.close()
+				}
+			}
+			received = func() int {
+				if ts != nil {
+					return rs.received() + 100*ts.received()
+				}
+				return rs.received()
+			}
+			break
+		}
 	default:
 		if special == "refused" {
 			endpoint = fmt.Sprintf("127.0.0.1:%d", freePort())
@@ -139,6 +163,10 @@ func streamDrv(c *ctx) {
 			jobs = append(jobs, job{path, 0, []arrival{{8, cl}, {30, "valid"}}, "none", r.U64(), false})
 			jobs = append(jobs, job{path, 0, []arrival{{8, cl}}, "none", r.U64(), true}) // the same with the debug flag on
 		}
+	}
+	// a controller configured with protocol "any" (UDP) that stays silent, answers late, answers well
+	for _, arr := range [][]arrival{{}, {{8, "valid"}}, {{int(T.Milliseconds()) * 18 / 10, "valid"}}, {{8, "short"}}} {
+		jobs = append(jobs, job{"any", 0, arr, "none", r.U64(), false})
 	}
 	// a valid reply that arrives in two separately delivered pieces (10 + 54 bytes, 50 ms apart)
 	for _, path := range []string{"tcp", "udp", "broadcast"} {
